@@ -1,7 +1,9 @@
 package rules
 
 import (
+	"go/token"
 	"go/types"
+	"sort"
 	"sync"
 
 	"golang.org/x/tools/go/ssa"
@@ -131,25 +133,343 @@ func resolveInvoke(p *core.Program, cc *ssa.CallCommon) []*ssa.Function {
 	return out
 }
 
-// resolveDynamic returns the repo functions a call of a function value may reach.
+// resolveDynamic returns the repo functions a call of a function value may reach. The value is
+// traced back to the closures and functions that can flow into it (parameters to the arguments of
+// the enclosing function's call sites, fields and captured variables to the values stored in them,
+// map/slice elements to the stored elements, call results to the callee's returns). Only when the
+// trace reaches something it cannot follow does the resolution fall back to every function value
+// of identical signature.
 func resolveDynamic(p *core.Program, cc *ssa.CallCommon) []*ssa.Function {
 	sig, ok := cc.Value.Type().Underlying().(*types.Signature)
 	if !ok {
 		return nil
 	}
-	// a closure created in the same function and called directly
-	if mc, ok := cc.Value.(*ssa.MakeClosure); ok {
-		if f, ok := mc.Fn.(*ssa.Function); ok {
-			return []*ssa.Function{f}
+	tr := &fnTracer{p: p, seen: map[ssa.Value]bool{}, out: map[*ssa.Function]bool{}}
+	tr.trace(cc.Value, 0)
+	var out []*ssa.Function
+	if tr.unknown {
+		for _, f := range cgOf(p).funcValues {
+			if types.Identical(f.Signature, sig) || identicalIgnoringRecv(f.Signature, sig) {
+				tr.out[f] = true
+			}
 		}
 	}
-	var out []*ssa.Function
-	for _, f := range cgOf(p).funcValues {
-		if types.Identical(f.Signature, sig) || identicalIgnoringRecv(f.Signature, sig) {
+	dedup := map[*ssa.Function]bool{}
+	for f := range tr.out {
+		// bound-method and other synthetic wrappers stand for the declared method
+		if f.Synthetic != "" {
+			if obj, ok := f.Object().(*types.Func); ok {
+				if d := p.FuncOf(obj); d != nil {
+					f = d
+				}
+			}
+		}
+		if p.InRepo(f) && f.Blocks != nil && !dedup[f] {
+			dedup[f] = true
 			out = append(out, f)
 		}
 	}
+	sort.Slice(out, func(i, j int) bool { return out[i].String() < out[j].String() })
 	return out
+}
+
+type fnTracer struct {
+	p       *core.Program
+	seen    map[ssa.Value]bool
+	out     map[*ssa.Function]bool
+	unknown bool
+}
+
+func (t *fnTracer) trace(v ssa.Value, depth int) {
+	if v == nil || t.seen[v] {
+		return
+	}
+	t.seen[v] = true
+	if depth > 12 {
+		t.unknown = true
+		return
+	}
+	switch x := v.(type) {
+	case *ssa.Function:
+		t.out[x] = true
+	case *ssa.MakeClosure:
+		if f, ok := x.Fn.(*ssa.Function); ok {
+			t.out[f] = true
+		}
+	case *ssa.Const:
+		// nil function value
+	case *ssa.Phi:
+		for _, e := range x.Edges {
+			t.trace(e, depth+1)
+		}
+	case *ssa.ChangeType:
+		t.trace(x.X, depth+1)
+	case *ssa.MakeInterface:
+		t.trace(x.X, depth+1)
+	case *ssa.Extract:
+		t.trace(x.Tuple, depth+1)
+	case *ssa.Call:
+		callee := x.Call.StaticCallee()
+		if callee == nil || !t.p.InRepo(callee) || callee.Blocks == nil {
+			if callee != nil && !t.p.InRepo(callee) {
+				return // a function value produced by a dependency: not a repo function
+			}
+			t.unknown = true
+			return
+		}
+		core.EachInstr(callee, func(b *ssa.BasicBlock, i int, ins ssa.Instruction) {
+			if ret, ok := ins.(*ssa.Return); ok {
+				for _, r := range core.RetResults(ret) {
+					if _, isFn := r.Type().Underlying().(*types.Signature); isFn {
+						t.trace(r, depth+1)
+					}
+				}
+			}
+		})
+	case *ssa.Parameter:
+		fn := x.Parent()
+		idx := -1
+		for i, pr := range fn.Params {
+			if pr == x {
+				idx = i
+			}
+		}
+		sites := t.p.CallSitesOf(fn)
+		if idx < 0 || len(sites) == 0 {
+			t.unknown = true
+			return
+		}
+		for _, cs := range sites {
+			if cs == nil {
+				t.unknown = true // the function is also used as a value
+				continue
+			}
+			if idx < len(cs.Args) {
+				t.trace(cs.Args[idx], depth+1)
+			}
+		}
+	case *ssa.FreeVar:
+		fn := x.Parent()
+		idx := -1
+		for i, fv := range fn.FreeVars {
+			if fv == x {
+				idx = i
+			}
+		}
+		found := false
+		if par := fn.Parent(); par != nil && idx >= 0 {
+			core.EachInstr(par, func(b *ssa.BasicBlock, i int, ins ssa.Instruction) {
+				if mc, ok := ins.(*ssa.MakeClosure); ok && mc.Fn == fn && idx < len(mc.Bindings) {
+					found = true
+					t.trace(mc.Bindings[idx], depth+1)
+				}
+			})
+		}
+		if !found {
+			t.unknown = true
+		}
+	case *ssa.UnOp:
+		if x.Op != token.MUL {
+			t.unknown = true
+			return
+		}
+		t.traceAddr(x.X, depth+1)
+	case *ssa.Field:
+		if n, f, _, ok := core.FieldRef(x); ok && n != nil {
+			t.traceField(n, f, depth+1)
+		} else {
+			t.unknown = true
+		}
+	case *ssa.Lookup:
+		t.traceContainer(x.X, depth+1)
+	case *ssa.Index:
+		t.traceContainer(x.X, depth+1)
+	default:
+		t.unknown = true
+	}
+}
+
+// traceAddr traces the values stored at an address.
+func (t *fnTracer) traceAddr(addr ssa.Value, depth int) {
+	switch a := addr.(type) {
+	case *ssa.FieldAddr:
+		if n, f, _, ok := core.FieldRef(a); ok && n != nil {
+			t.traceField(n, f, depth)
+			return
+		}
+		t.unknown = true
+	case *ssa.Alloc:
+		for _, r := range core.Referrers(a) {
+			if st, ok := r.(*ssa.Store); ok && st.Addr == a {
+				t.trace(st.Val, depth)
+			}
+		}
+	case *ssa.FreeVar, *ssa.Parameter:
+		// pointer to a captured/caller variable: follow to the variable, then its stores
+		tr2 := &fnTracer{p: t.p, seen: t.seen, out: t.out}
+		_ = tr2
+		var origin ssa.Value
+		switch y := a.(type) {
+		case *ssa.FreeVar:
+			fn := y.Parent()
+			for i, fv := range fn.FreeVars {
+				if fv == y && fn.Parent() != nil {
+					core.EachInstr(fn.Parent(), func(b *ssa.BasicBlock, k int, ins ssa.Instruction) {
+						if mc, ok := ins.(*ssa.MakeClosure); ok && mc.Fn == fn && i < len(mc.Bindings) {
+							origin = mc.Bindings[i]
+						}
+					})
+				}
+			}
+		}
+		if origin != nil {
+			t.traceAddr(origin, depth+1)
+			// stores made through the captured pointer inside closures
+			return
+		}
+		t.unknown = true
+	case *ssa.IndexAddr:
+		t.traceContainer(a.X, depth)
+	case *ssa.Global:
+		for _, fn := range t.p.Funcs {
+			core.EachInstr(fn, func(b *ssa.BasicBlock, i int, ins ssa.Instruction) {
+				if st, ok := ins.(*ssa.Store); ok && st.Addr == ssa.Value(a) {
+					t.trace(st.Val, depth+1)
+				}
+			})
+		}
+	default:
+		t.unknown = true
+	}
+}
+
+// traceField traces every value stored into field f of struct type n anywhere in the repo.
+func (t *fnTracer) traceField(n *types.Named, f string, depth int) {
+	stores := t.p.FieldStores(n, f)
+	if len(stores) == 0 {
+		t.unknown = true
+		return
+	}
+	for _, v := range stores {
+		t.trace(v, depth)
+	}
+}
+
+// traceContainer traces the elements put into a map or slice value.
+func (t *fnTracer) traceContainer(c ssa.Value, depth int) {
+	if depth > 12 || t.seen[c] {
+		return
+	}
+	t.seen[c] = true
+	switch x := c.(type) {
+	case *ssa.UnOp:
+		if x.Op == token.MUL {
+			// the container lives in a variable: find what is stored there, and element updates on any load of it
+			switch a := x.X.(type) {
+			case *ssa.Global:
+				for _, fn := range t.p.Funcs {
+					core.EachInstr(fn, func(b *ssa.BasicBlock, i int, ins ssa.Instruction) {
+						switch s := ins.(type) {
+						case *ssa.Store:
+							if s.Addr == ssa.Value(a) {
+								t.traceContainer(s.Val, depth+1)
+							}
+						case *ssa.MapUpdate:
+							if core.GlobalOf(s.Map) == a {
+								t.trace(s.Value, depth+1)
+							}
+						}
+					})
+				}
+				return
+			case *ssa.FieldAddr:
+				if n, f, _, ok := core.FieldRef(a); ok && n != nil {
+					for _, v := range t.p.FieldStores(n, f) {
+						t.traceContainer(v, depth+1)
+					}
+					return
+				}
+			case *ssa.Alloc:
+				for _, r := range core.Referrers(a) {
+					if st, ok := r.(*ssa.Store); ok && st.Addr == ssa.Value(a) {
+						t.traceContainer(st.Val, depth+1)
+					}
+				}
+				return
+			}
+		}
+		t.unknown = true
+	case *ssa.MakeMap:
+		for _, r := range core.Referrers(x) {
+			if mu, ok := r.(*ssa.MapUpdate); ok && mu.Map == ssa.Value(x) {
+				t.trace(mu.Value, depth+1)
+			}
+		}
+	case *ssa.MakeSlice, *ssa.Alloc:
+		for _, r := range core.Referrers(x) {
+			if ia, ok := r.(*ssa.IndexAddr); ok {
+				for _, rr := range core.Referrers(ia) {
+					if st, ok := rr.(*ssa.Store); ok && st.Addr == ssa.Value(ia) {
+						t.trace(st.Val, depth+1)
+					}
+				}
+			}
+			if sl, ok := r.(*ssa.Slice); ok {
+				_ = sl
+			}
+		}
+	case *ssa.Slice:
+		t.traceContainer(x.X, depth+1)
+	case *ssa.Phi:
+		for _, e := range x.Edges {
+			t.traceContainer(e, depth+1)
+		}
+	case *ssa.Call:
+		if bi, ok := x.Call.Value.(*ssa.Builtin); ok && bi.Name() == "append" {
+			for _, a := range x.Call.Args {
+				t.traceContainer(a, depth+1)
+			}
+			return
+		}
+		callee := x.Call.StaticCallee()
+		if callee != nil && t.p.InRepo(callee) && callee.Blocks != nil {
+			core.EachInstr(callee, func(b *ssa.BasicBlock, i int, ins ssa.Instruction) {
+				if ret, ok := ins.(*ssa.Return); ok {
+					for _, r := range core.RetResults(ret) {
+						if types.Identical(r.Type(), x.Type()) {
+							t.traceContainer(r, depth+1)
+						}
+					}
+				}
+			})
+			return
+		}
+		t.unknown = true
+	case *ssa.Parameter:
+		fn := x.Parent()
+		sites := t.p.CallSitesOf(fn)
+		if len(sites) == 0 {
+			t.unknown = true
+			return
+		}
+		for i, pr := range fn.Params {
+			if pr != x {
+				continue
+			}
+			for _, cs := range sites {
+				if cs == nil {
+					t.unknown = true
+					continue
+				}
+				if i < len(cs.Args) {
+					t.traceContainer(cs.Args[i], depth+1)
+				}
+			}
+		}
+	case *ssa.Const:
+	default:
+		t.unknown = true
+	}
 }
 
 func identicalIgnoringRecv(a, b *types.Signature) bool {
